@@ -949,6 +949,21 @@ Proof.
   induction 1; intros l3 H3; inversion H3; subst; constructor; eauto.
 Qed.
 
+Lemma Forall2_imp_in {A B} (R S : A -> B -> Prop) l l' :
+  (forall x y, In x l -> R x y -> S x y) -> Forall2 R l l' -> Forall2 S l l'.
+Proof.
+  intros HI H. induction H; constructor.
+  - apply HI; [left; reflexivity | assumption].
+  - apply IHForall2. intros; apply HI; [right|]; assumption.
+Qed.
+
+Lemma forallb_Forall_true {A} (f : A -> bool) l : forallb f l = true -> Forall (fun x => f x = true) l.
+Proof. intros H. apply Forall_forall. rewrite forallb_forall in H. exact H. Qed.
+
+Lemma Forall2_map_l_inv {A B C} (R : C -> B -> Prop) (g : A -> C) l : forall l',
+  Forall2 R (map g l) l' -> Forall2 (fun x y => R (g x) y) l l'.
+Proof. induction l; intros l' H; inversion H; subst; constructor; auto. Qed.
+
 Lemma iota_nat_length s n : length (iota_nat s n) = n.
 Proof. revert s. induction n; intros s; cbn; [reflexivity | rewrite IHn; reflexivity]. Qed.
 
@@ -1326,6 +1341,118 @@ Proof. intros E (e & He & Hv). exists e. split; [rewrite E; exact He | exact Hv]
 Lemma item_ok_null o c i : item o None c i = Ok [ENull] -> item_ok o c i VNone.
 Proof. intros E. exists [ENull]. split; [exact E | constructor]. Qed.
 
+(* ---- n-d NumpyArray *)
+Lemma slice_ok {A} (l : list A) a b : 0 <= a -> a <= b -> b <= zlen l -> slice l a b = Ok (take (b - a) (drop a l)).
+Proof. intros. unfold slice. replace ((0 <=? a) && (a <=? b) && (b <=? zlen l)) with true by lia. reflexivity. Qed.
+
+Lemma take_drop_zlen {A} (l : list A) a k : 0 <= a -> 0 <= k -> a + k <= zlen l -> zlen (take k (drop a l)) = k.
+Proof.
+  intros. unfold zlen, take, drop in *. rewrite firstn_length, skipn_length. lia.
+Qed.
+
+(* a slice of a slice is a slice *)
+Lemma slice_slice {A} (l : list A) a b s x y : slice l a b = Ok s -> 0 <= x -> x <= y -> y <= b - a ->
+  slice s x y = slice l (a + x) (a + y).
+Proof.
+  intros H Hx Hxy Hy. destruct (slice_inv _ _ _ _ H) as (Ha & Hab & Hb & ->).
+  rewrite slice_ok by (rewrite ?take_drop_zlen; lia). rewrite slice_ok by lia. f_equal.
+  unfold take, drop. rewrite skipn_firstn_comm, skipn_skipn', firstn_firstn. f_equal; [lia | f_equal; lia].
+Qed.
+
+Lemma iota_nat_shift n : forall s a, iota_nat (a + s) n = map (fun k => a + k) (iota_nat s n).
+Proof. induction n; intros s a; cbn; [reflexivity|]. f_equal. rewrite <- IHn. f_equal. lia. Qed.
+
+Lemma range_shift a n : 0 <= n -> range a (a + n) = map (fun k => a + k) (iota n).
+Proof.
+  intros Hn. unfold range, iota. replace (a + n - a) with n by lia.
+  rewrite <- iota_nat_shift. f_equal. lia.
+Qed.
+
+Lemma mapM_map {A B C} (f : B -> res C) (g : A -> B) l : mapM f (map g l) = mapM (fun x => f (g x)) l.
+Proof. induction l; cbn; [reflexivity|]. rewrite IHl. reflexivity. Qed.
+
+Lemma mapM_ext_in {A B} (f g : A -> res B) l : (forall x, In x l -> f x = g x) -> mapM f l = mapM g l.
+Proof.
+  induction l as [|a l IH]; intros H; cbn; [reflexivity|].
+  rewrite (H a (or_introl eq_refl)). rewrite IH by (intros; apply H; right; assumption). reflexivity.
+Qed.
+
+Lemma in_iota k n : In k (iota n) -> 0 <= k < n.
+Proof.
+  unfold iota. assert (G : forall m s, In k (iota_nat s m) -> s <= k < s + Z.of_nat m).
+  { induction m; intros s H; cbn in H; [tauto|]. destruct H as [<- | H]; [lia|]. specialize (IHm _ H). lia. }
+  intros H. specialize (G _ _ H). lia.
+Qed.
+
+Lemma prodZ_nonneg dims : Forall (fun d => 0 <= d) dims -> 0 <= prodZ dims.
+Proof. induction 1; cbn [prodZ fold_right]; [lia|]. fold (prodZ l). nia. Qed.
+
+Lemma np_block_cons o dt d ds sub :
+  np_block o false dt (d :: ds) sub =
+  do xs <- mapM (fun k => do sub' <- slice sub (k * prodZ ds) ((k + 1) * prodZ ds); np_block o false dt ds sub') (iota d);
+  Ok (ESA :: concat xs ++ [EEA]).
+Proof. cbn [np_block]. destruct ds; reflexivity. Qed.
+
+(* the nesting of to_list and the recursion of tojson_boolean/integer/real over the dimensions agree *)
+Lemma nest_spec o dt (Hu : forall d, dt = DUInt64 -> datum_i64 d = true \/ True) dims :
+  forall count flat vs,
+  Forall (fun d => 0 <= d) dims -> 0 <= count -> zlen flat = count * prodZ dims ->
+  (dt = DUInt64 -> Forall (fun d => datum_i64 d = true) flat) ->
+  nest dims count (map (leaf dt) flat) = Ok vs ->
+  zlen vs = count /\
+  Forall2 (fun i v => exists sub e, slice flat (i * prodZ dims) ((i + 1) * prodZ dims) = Ok sub /\
+                                    np_block o false dt dims sub = Ok e /\ ev_val e (jv o v)) (iota count) vs.
+Proof.
+  clear Hu. induction dims as [|d ds IH]; intros count flat vs Hd Hc Hlen Hu64 H.
+  - cbn [nest] in H. injection H as <-. cbn [prodZ fold_right] in *. rewrite Z.mul_1_r in Hlen.
+    rewrite zlen_map. split; [exact Hlen|]. apply Forall2_map_r. rewrite <- Hlen.
+    eapply Forall2_imp; [|apply get_iota]. cbn beta. intros i x Hg.
+    exists [x], [scalar_ev o dt x]. rewrite !Z.mul_1_r. split; [apply slice_one; exact Hg|]. split; [reflexivity|].
+    apply scalar_ev_val. intros E. specialize (Hu64 E). rewrite Forall_forall in Hu64. apply Hu64. eapply get_In; exact Hg.
+  - inversion Hd as [|? ? Hd0 Hds]; subst. pose proof (prodZ_nonneg ds Hds) as HP.
+    cbn [nest] in H. inv_bind H. rename x into inner. inv_bind H. rename x into ch. injection H as <-.
+    assert (Hlen' : zlen flat = count * d * prodZ ds) by (rewrite Hlen; cbn [prodZ fold_right]; fold (prodZ ds); lia).
+    destruct (IH (count * d) flat inner Hds ltac:(nia) Hlen' Hu64 E) as (Hin & HF).
+    cbn [prodZ fold_right]. fold (prodZ ds). set (P := prodZ ds) in *.
+    unfold chunks in E0. destruct (d <? 0) eqn:Ed; [lia|]. rewrite zlen_map.
+    destruct (d =? 0) eqn:E0d.
+    + assert (d = 0) by lia. subst d. destruct (count <? 0) eqn:Ec; [lia|]. injection E0 as <-.
+      rewrite zlen_map, zlen_iota by lia. split; [reflexivity|].
+      apply Forall2_map_r, Forall2_map_r. apply Forall2_diag. intros i.
+      exists [], [ESA; EEA]. split; [|split].
+      * replace (i * (0 * P)) with 0 by lia. replace ((i + 1) * (0 * P)) with 0 by lia.
+        rewrite slice_ok by (unfold zlen; lia). reflexivity.
+      * rewrite np_block_cons. reflexivity.
+      * cbn [jv map]. apply (EV_arr [] []). constructor.
+    + injection E0 as <-. rewrite Hin. rewrite Z.div_mul by lia.
+      pose proof (chunks_nat_spec d ltac:(lia) (Z.to_nat count) inner 0) as CS.
+      pose proof (Forall2_len _ _ _ CS) as CL. rewrite iota_nat_length in CL.
+      split; [unfold zlen; rewrite <- CL; lia|].
+      apply Forall2_map_r. unfold iota.
+      eapply Forall2_imp; [|exact CS]. cbn beta. intros i l (Hi & ->).
+      rewrite Z.sub_0_r.
+      assert (Hsl : slice inner (i * d) (i * d + d) = Ok (take d (drop (i * d) inner))).
+      { rewrite slice_ok by nia. f_equal. f_equal. lia. }
+      pose proof HF as HF'. rewrite <- Hin in HF'.
+      pose proof (Forall2_slice _ _ _ _ _ HF' Hsl) as HR.
+      rewrite range_shift in HR by lia. apply Forall2_map_l_inv in HR.
+      assert (Hsub : slice flat (i * (d * P)) ((i + 1) * (d * P)) = Ok (take ((i + 1) * (d * P) - i * (d * P)) (drop (i * (d * P)) flat))).
+      { apply slice_ok; nia. }
+      assert (HB : Forall2 (fun k v => exists e, (do sub' <- slice (take ((i + 1) * (d * P) - i * (d * P)) (drop (i * (d * P)) flat)) (k * P) ((k + 1) * P);
+                                                    np_block o false dt ds sub') = Ok e /\ ev_val e (jv o v))
+                           (iota d) (take d (drop (i * d) inner))).
+      { eapply Forall2_imp_in; [|exact HR]. cbn beta. intros k v Hk (sub & e & Hs & Hb & Hv).
+        apply in_iota in Hk. exists e. split; [|exact Hv].
+        rewrite (slice_slice _ _ _ _ (k * P) ((k + 1) * P) Hsub) by nia.
+        replace (i * (d * P) + k * P) with ((i * d + k) * P) by lia.
+        replace (i * (d * P) + (k + 1) * P) with ((i * d + k + 1) * P) by lia.
+        rewrite Hs. exact Hb. }
+      destruct (Forall2_build _ (jv o) _ _ HB) as (xs & Hxs & Hvs).
+      eexists _, (ESA :: concat xs ++ [EEA]). split; [exact Hsub|]. split.
+      * rewrite np_block_cons. change (prodZ ds) with P. rewrite Hxs. reflexivity.
+      * cbn [jv]. constructor. exact Hvs.
+Qed.
+
 (* ---- strings *)
 Lemma numpy1_to_list dt n data vs : to_list (Numpy dt [n] data) = Ok vs ->
   0 <= n <= zlen data /\ vs = map (leaf dt) (take n data).
@@ -1389,13 +1516,6 @@ Proof.
     rewrite take_drop_take in Hb by lia.
     apply bytes_str; [apply Forall_firstn, Forall_skipn; exact Hd | exact Hb].
 Qed.
-
-Lemma forallb_Forall_true {A} (f : A -> bool) l : forallb f l = true -> Forall (fun x => f x = true) l.
-Proof. intros H. apply Forall_forall. rewrite forallb_forall in H. exact H. Qed.
-
-Lemma Forall2_map_l_inv {A B C} (R : C -> B -> Prop) (g : A -> C) l : forall l',
-  Forall2 R (map g l) l' -> Forall2 (fun x y => R (g x) y) l l'.
-Proof. induction l; intros l' H; inversion H; subst; constructor; auto. Qed.
 
 Lemma Forall2_map_l {A B C} (R : C -> B -> Prop) (g : A -> C) l l' :
   Forall2 (fun x y => R (g x) y) l l' -> Forall2 R (map g l) l'.
@@ -1480,19 +1600,26 @@ Proof.
   induction c as [dt shape data| |w offs c IHc|w ss se c IHc|c size zl IHc|w ix c IHc|w ix c IHc|m vw c IHc
                   |m vw lsb n c IHc|c IHc|w tags ix cs IHcs|cs ks n IHcs|arr rn c IHc] using content_ind';
     intros F U vs T.
-  - (* Numpy, 1-d *)
-    destruct shape as [|n [|m t]]; try discriminate F.
-    cbn [to_list existsb orb] in T. rewrite orb_false_r in T.
-    destruct (n <? 0) eqn:En; [discriminate|].
-    cbn [prodZ fold_right] in T. rewrite Z.mul_1_r in T.
-    destruct (zlen data <? n) eqn:Ed; [discriminate|]. cbn [nest bind] in T. injection T as <-.
-    rewrite zlen_map, take_zlen by lia. split; [reflexivity|].
-    apply Forall2_map_r. pose proof (get_iota data) as G.
-    rewrite (iota_take n (zlen data)) by lia. unfold take at 1 2.
-    eapply Forall2_imp; [|apply Forall2_firstn; exact G]. cbn beta. intros i d Hg.
-    exists [scalar_ev o dt d]. split.
-    + cbn [item prodZ fold_right]. rewrite !Z.mul_1_r. rewrite (slice_one _ _ _ Hg). reflexivity.
-    + apply scalar_ev_val. intros ->. cbn [u64ok] in U. rewrite forallb_forall in U. apply U. eapply get_In; exact Hg.
+  - (* NumpyArray of any rank *)
+    destruct shape as [|n dims]; [discriminate T|].
+    cbn [to_list] in T. destruct (existsb (fun d => d <? 0) (n :: dims)) eqn:Ex; [discriminate|].
+    destruct (zlen data <? prodZ (n :: dims)) eqn:Ed; [discriminate|]. inv_bind T. injection T as <-. rename x into vs.
+    assert (Hsh : Forall (fun d => 0 <= d) (n :: dims)).
+    { apply Forall_forall. intros d Hd. destruct (d <? 0) eqn:E0; [|lia].
+      assert (existsb (fun d => d <? 0) (n :: dims) = true) by (apply existsb_exists; eauto). congruence. }
+    inversion Hsh as [|? ? Hn Hdims]; subst. pose proof (prodZ_nonneg dims Hdims) as HP.
+    set (N := prodZ (n :: dims)) in *. assert (HN : N = n * prodZ dims) by reflexivity.
+    assert (Hfl : zlen (take N data) = n * prodZ dims) by (rewrite take_zlen; nia).
+    assert (Hu : dt = DUInt64 -> Forall (fun d => datum_i64 d = true) (take N data)).
+    { intros ->. cbn [u64ok] in U. apply Forall_firstn, forallb_Forall_true. exact U. }
+    destruct (nest_spec o dt (fun _ _ => or_intror I) dims n (take N data) vs Hdims Hn Hfl Hu E) as (Hz & HF).
+    rewrite Hz. split; [reflexivity|].
+    eapply Forall2_imp_in; [|exact HF]. cbn beta. intros i v Hi (sub & e & Hs & Hb & Hv).
+    apply in_iota in Hi. exists e. split; [|exact Hv].
+    cbn [item]. change (is_charp None) with false.
+    destruct (slice_inv _ _ _ _ Hs) as (Ha & Hab & Hbn & ->).
+    rewrite slice_ok by nia. cbn [bind]. rewrite <- Hb. f_equal.
+    unfold take, drop. symmetry. apply take_drop_take. nia.
   - (* Empty *) injection T as <-. split; [reflexivity | constructor].
   - (* ListOffset *)
     cbn [frag15 u64ok] in F, U. pose proof T as T0. cbn [to_list] in T0. inv_bind T0. rename x into vs'.
@@ -1977,3 +2104,48 @@ Example tojson_value_ex2 :
   (do e <- tojson_events ex_opts ex_layout2; json_value e) =
     Ok (VList [VStr true [97; 34]; VRec [([48], VBool true); ([49], VNum (DInf true))]; VStr true [0; 200; 10]], []).
 Proof. vm_compute. auto. Qed.
+
+(* ================================================================== (b) in full: every valid layout is in the fragment *)
+Definition under (p : option akind) (c : content) : content :=
+  match p with None => c | Some k => Par (Some k) None c end.
+
+Lemma all_fix_intro (f : content -> bool) cs : Forall (fun c => f c = true) cs ->
+  (fix all (l : list content) : bool := match l with [] => true | x :: xs => f x && all xs end) cs = true.
+Proof. induction 1 as [|c cs Hc _ IH]; [reflexivity|]. rewrite Hc, IH. reflexivity. Qed.
+
+Lemma valid_frag c : forall p, Valid p c -> bytes_ok c = true -> frag15 (under p c) = true.
+Proof.
+  assert (STR : forall p c0, ParamOk p c0 -> bytes_ok c0 = true -> p <> None -> frag15 (under p c0) = true).
+  { intros p c0 HP HB Hp. destruct p as [k|]; [|congruence]. cbn [under frag15].
+    destruct k; cbn [ParamOk] in HP; try contradiction;
+      destruct HP as (c' & rn & n & d & HL & ->); unfold str_chars; rewrite HL;
+      destruct c0; cbn [list_content] in HL; try discriminate HL; injection HL as ->; cbn [bytes_ok] in HB; exact HB. }
+  induction c as [dt shape data| |w offs c IHc|w ss se c IHc|c size zl IHc|w ix c IHc|w ix c IHc|m vw c IHc
+                  |m vw lsb n c IHc|c IHc|w tags ix cs IHcs|cs ks n IHcs|arr rn c IHc] using content_ind';
+    intros p V HB;
+    try (destruct p as [k|]; [apply STR; [inversion V; subst; assumption | exact HB | discriminate]|]); cbn [under].
+  - reflexivity.
+  - reflexivity.
+  - inversion V; subst. cbn [frag15 bytes_ok] in *. apply (IHc None); auto.
+  - inversion V; subst. cbn [frag15 bytes_ok] in *. apply (IHc None); auto.
+  - inversion V; subst. cbn [frag15 bytes_ok] in *. apply (IHc None); auto.
+  - inversion V; subst. cbn [frag15 bytes_ok] in *. apply (IHc None); auto.
+  - inversion V; subst. cbn [frag15 bytes_ok] in *. apply (IHc None); auto.
+  - inversion V; subst. cbn [frag15 bytes_ok] in *. apply (IHc None); auto.
+  - inversion V; subst. cbn [frag15 bytes_ok] in *. apply (IHc None); auto.
+  - inversion V; subst. cbn [frag15 bytes_ok] in *. apply (IHc None); auto.
+  - inversion V; subst. cbn [frag15 bytes_ok] in *. apply frag_all_Forall in HB. apply all_fix_intro.
+    rewrite Forall_forall in *. intros c Hc. apply (IHcs c Hc None); auto.
+  - inversion V; subst. cbn [frag15 bytes_ok] in *. apply frag_all_Forall in HB. apply all_fix_intro.
+    rewrite Forall_forall in *. intros c Hc. apply (IHcs c Hc None); auto.
+  - (* Par *) inversion V; subst. cbn [bytes_ok] in HB. specialize (IHc arr H3 HB).
+    destruct arr as [k|]; cbn [under] in IHc; cbn [frag15] in *; exact IHc.
+Qed.
+
+(** (b), full statement: for every valid layout (uint8 items being bytes, uint64 items below 2^63) the
+    events of to_json fold back into to_list up to the documented rendering *)
+Theorem tojson_value_full o c vs : Valid None c -> bytes_ok c = true -> u64ok c = true -> to_list c = Ok vs ->
+  exists evs, tojson_events o c = Ok evs /\ json_value evs = Ok (VList (map (jv o) vs), []).
+Proof.
+  intros V B U T. apply tojson_value_frag; [exact (valid_frag c None V B) | exact U | exact T].
+Qed.
